@@ -13,7 +13,7 @@ import itertools
 import numpy as np
 import scipy.sparse as sps
 
-from ..core import Violation, require, rng_for, todense
+from ..core import Violation, rng_for, todense
 from ..oracles import c08_ref as ref
 
 ID = "C08"
@@ -57,15 +57,22 @@ ASSUMPTIONS = [
     "nu in (-0.5, 0.49], element sizes 0.02..8, E 1e-6..2.1e11, 1D domains and custom node_numbering excluded",
     "bounds: quick 2D<=6x6, 3D<=3^3 (+random up to 9x9 / 4^3); thorough 2D<=11x11, 3D<=5^3 (+random 16x16 / 6^3)",
 ]
-FLOORS = {
-    "quick": {"cases_held": 500, "distinct_nontrivial": 400, "matrices_compared": 15000, "entries_compared": 8_000_000,
-              "instances": 6000, "psd_checks": 150, "rbm_modes_checked": 1000, "mass_directions_checked": 400,
-              "poisson_energy_checks": 250, "stiffness_symmetry_checks": 250, "history_calls": 7000},
-    "thorough": {"cases_held": 1500, "distinct_nontrivial": 1200, "matrices_compared": 60000,
-                 "entries_compared": 500_000_000, "instances": 25000, "psd_checks": 800, "rbm_modes_checked": 6000,
-                 "mass_directions_checked": 2000, "poisson_energy_checks": 1200, "stiffness_symmetry_checks": 1200,
-                 "history_calls": 30000},
-}
+def _floors(scale):
+    f = {"cases_held": 330, "distinct_nontrivial": 330, "matrices_compared": 11000, "entries_compared": 18_000_000,
+         "instances": 5000, "history_calls": 11000, "psd_checks": 240, "rbm_modes_checked": 1100,
+         "mass_directions_checked": 500, "poisson_const_checks": 260, "poisson_energy_checks": 260,
+         "stiffness_symmetry_checks": 260, "x:complex": 250}
+    f.update({f"bc:{k}": 500 for k in BC_KINDS})
+    f.update({f"const:{k}": 750 for k in CONST_KINDS})
+    f.update({f"mtype:{k}": 800 for k in MTYPES})
+    f.update({f"diag:{k}": 900 for k in DIAG_KINDS})
+    f.update({f"x:{k}": 1000 for k in X_KINDS})
+    return {k: int(v * scale) for k, v in f.items()}
+
+
+# measured on the unchanged tree (seed 0): quick 668 cases / 10 256 instances / 21 840 matrices / 3.6e7 entries;
+# thorough 2 312 cases / 34 608 instances / 77 040 matrices / 6.8e8 entries.  Floors = about half of that.
+FLOORS = {"quick": _floors(1.0), "thorough": dict(_floors(3.4), entries_compared=340_000_000)}
 TIMEOUT_CASE = 300
 
 
@@ -343,21 +350,26 @@ def mismatch(A, Aref, T, ignore):
     return (int(i), int(j), A[i, j], Aref[i, j], float(T[i, j]))
 
 
-def close(A, B, scale, ignore=None):
+def close(A, B, Tfull, ignore=None):
+    """A equals the variant B up to the rounding of everything that may have been summed into an entry"""
     if A.shape != B.shape:
         return False
-    D = np.abs(A - B)
+    D = np.abs(A - B) - Tfull
     if ignore is not None:
-        D = np.where(ignore, 0.0, D)
-    return bool(D.max() <= 1e-9 * max(scale, 1e-300))
+        D = np.where(ignore, -1.0, D)
+    return bool(D.max() <= 0)
 
 
 def classify(s, mod, A, x, opts, Aref, base, ignore):
     """stable mechanism name for an assembled matrix that is not the reference"""
-    scale = float(np.max(np.abs(Aref))) + s.kmax * float(np.max(np.abs(x)) if len(x) else 0.0)
     bcset, diag, Cd = opts["bcset"], opts["diag_eff"], opts["C_dense"]
     C0 = 0.0 if Cd is None else Cd
     has_bc = bcset is not None and bcset.size > 0
+    # entry-wise rounding allowance valid for every variant below (all are sums of subsets of these terms)
+    scale = ref.pattern_scale(s.dc, s.n, np.asarray(x).astype(base.dtype), s.kmax) + 2 * np.abs(C0)
+    if has_bc:
+        scale[bcset, bcset] += abs(diag) if diag is not None else 0.0
+    scale = RTOL * scale
     # 1. wrong element matrix (physical kinds): root cause, named first
     el = getattr(mod, "elmat", None)
     if s.kind != "general" and el is not None and np.shape(el) == s.ke.shape:
@@ -382,7 +394,7 @@ def classify(s, mod, A, x, opts, Aref, base, ignore):
             return "bc/only-rows-zeroed"
         if close(A, apply_bc(base, bcset, diag, "cols") + C0, scale, ignore):
             return "bc/only-columns-zeroed"
-        bad = (np.abs(A - Aref) > 1e-9 * scale) & ~ignore
+        bad = (np.abs(A - Aref) > scale) & ~ignore
         on_diag = np.zeros_like(bad)
         on_diag[bcset, bcset] = True
         in_bc = np.zeros_like(bad)
@@ -405,27 +417,38 @@ def classify(s, mod, A, x, opts, Aref, base, ignore):
 
 
 def physics(s, A, x, S, ctx):
-    """clauses that are stated for the plain matrix (no bc, no constant), judged on the observed matrix"""
+    """clauses that are stated for the plain matrix (no bc, no constant), judged on the observed matrix alone.
+    Every clause is evaluated (a broken one is recorded with ctx.violate and the next one still runs);
+    returns (number of broken clauses, observations)."""
     xr = np.asarray(x, dtype=float)
     Sinf = float(np.max(np.sum(S, axis=1))) if S.size else 0.0
+    nbad, obs = 0, {}
+    if not np.all(np.isfinite(A)):
+        ctx.violate(f"{s.kind}/non-finite-entries", grid=s.n3, material=s.mat)
+        return 1, obs
     if s.kind == "stiffness":
         ctx.count("stiffness_symmetry_checks")
         asym = float(np.max(np.abs(A - A.T)))
-        require(asym <= 1e-12 * float(np.max(S)), "stiffness/not-symmetric", grid=s.n3, asym=asym, scale=float(np.max(S)))
+        if not asym <= 1e-12 * float(np.max(S)):
+            nbad += 1
+            ctx.violate("stiffness/not-symmetric", grid=s.n3, asym=asym, scale=float(np.max(S)), material=s.mat)
         for name, u in ref.rigid_body_modes(s.ijk, s.h):
             ctx.count("rbm_modes_checked")
             r = np.abs(A @ u)
             lim = RTOL * (S @ np.abs(u))
             if np.any(r > lim):
                 i = int(np.argmax(r - lim))
-                raise Violation(f"stiffness/rigid-body-{name.split('-')[0]}-not-annihilated", mode=name, grid=s.n3,
-                                sizes=s.h, residual=float(r[i]), limit=float(lim[i]), dof=i, material=s.mat)
+                nbad += 1
+                ctx.violate(f"stiffness/rigid-body-{name.split('-')[0]}-not-annihilated", mode=name, grid=s.n3,
+                            sizes=s.h, residual=float(r[i]), limit=float(lim[i]), dof=i, material=s.mat)
         if np.all(xr >= 0):
             ctx.count("psd_checks")
             lam = np.linalg.eigvalsh((A + A.T) / 2.0)
-            require(lam[0] >= -RTOL * Sinf, "stiffness/negative-eigenvalue-for-nonnegative-x", grid=s.n3,
-                    lambda_min=float(lam[0]), lambda_max=float(lam[-1]), material=s.mat)
-            return {"lambda_min/|K|": float(lam[0] / max(Sinf, 1e-300))}
+            if not lam[0] >= -RTOL * Sinf:
+                nbad += 1
+                ctx.violate("stiffness/negative-eigenvalue-for-nonnegative-x", grid=s.n3, lambda_min=float(lam[0]),
+                            lambda_max=float(lam[-1]), material=s.mat, x=xr)
+            obs["lambda_min/|K|"] = float(lam[0] / max(Sinf, 1e-300))
     elif s.kind == "mass":
         vol = float(np.prod(s.h)) * s.t
         want = float(s.mat["rho"]) * vol * float(np.sum(xr))
@@ -436,17 +459,20 @@ def physics(s, A, x, S, ctx):
             e[:, d] = 1.0
             e = e.ravel()
             got = float(e @ (A @ e))
-            require(abs(got - want) <= lim, "mass/total-mass-per-direction-is-not-rho-V-sum-x", direction=d, got=got,
-                    want=want, grid=s.n3, ndof=s.ndof, sizes=s.h, thickness=s.t, rho=s.mat["rho"])
-        return {"mass_rel_err": abs(got - want) / max(abs(want), 1e-300)}
+            if not abs(got - want) <= lim:
+                nbad += 1
+                ctx.violate("mass/total-mass-per-direction-is-not-rho-V-sum-x", direction=d, got=got, want=want,
+                            grid=s.n3, ndof=s.ndof, sizes=s.h, thickness=s.t, rho=s.mat["rho"], sum_x=float(np.sum(xr)))
+            obs["mass_err/limit"] = max(obs.get("mass_err/limit", 0.0), abs(got - want) / lim)
     elif s.kind == "poisson":
         ctx.count("poisson_const_checks")
         r = np.abs(A @ np.ones(s.n))
         lim = RTOL * np.sum(S, axis=1)
         if np.any(r > lim):
             i = int(np.argmax(r - lim))
-            raise Violation("poisson/constant-field-not-annihilated", node=i, residual=float(r[i]), limit=float(lim[i]),
-                            grid=s.n3, sizes=s.h)
+            nbad += 1
+            ctx.violate("poisson/constant-field-not-annihilated", node=i, residual=float(r[i]), limit=float(lim[i]),
+                        grid=s.n3, sizes=s.h)
         rng = ctx.rng("c08-energy", *s.n3, s.nel)
         g = rng.standard_normal(s.dim)
         c0 = float(rng.uniform(-1, 1))
@@ -455,14 +481,17 @@ def physics(s, A, x, S, ctx):
         got = float(T @ (A @ T))
         want = float(s.mat["kappa"]) * s.t * float(np.prod(s.h)) * float(np.sum(xr)) * float(g @ g)
         lim = RTOL * float(np.abs(T) @ (np.abs(A) @ np.abs(T))) + 1e-300
-        require(abs(got - want) <= lim, "poisson/energy-of-linear-field-wrong", got=got, want=want, gradient=g,
-                grid=s.n3, sizes=s.h, thickness=s.t, kappa=s.mat["kappa"])
-        return {"energy_rel_err": abs(got - want) / max(abs(want), 1e-300)}
-    return {}
+        if not abs(got - want) <= lim:
+            nbad += 1
+            ctx.violate("poisson/energy-of-linear-field-wrong", got=got, want=want, gradient=g, grid=s.n3, sizes=s.h,
+                        thickness=s.t, kappa=s.mat["kappa"], sum_x=float(np.sum(xr)))
+        obs["energy_err/limit"] = abs(got - want) / lim
+    return nbad, obs
 
 
-def run_instance(pym, s, opts, xkinds, rng, ctx, worst):
-    """one module instance, a history of scaling vectors"""
+def run_instance(pym, s, opts, xkinds, rng, ctx, worst, obs):
+    """one module instance, a history of scaling vectors; returns False as soon as something is broken
+    (the remaining history of that instance would only repeat the report)"""
     ctx.count("instances")
     for nm, v in (("bc", opts["bc_kind"]), ("const", opts["const_kind"]), ("mtype", opts["mtype"]),
                   ("diag", opts["diag_kind"])):
@@ -471,15 +500,13 @@ def run_instance(pym, s, opts, xkinds, rng, ctx, worst):
     sx = pym.Signal("x", x0)
     mod = make_module(pym, s, sx, opts)
     plain = opts["bcset"] is None and opts["C_dense"] is None
-    obs = {}
     for call, xk in enumerate(xkinds):
         x = x0 if call == 0 else draw_x(rng, xk, s.nel)
         sx.state = x
         mod.response()
         ctx.count("history_calls")
         ctx.count(f"x:{xk}")
-        A = todense(mod.sig_out[0].state)
-        A = np.asarray(A)
+        A = np.asarray(todense(mod.sig_out[0].state))
         Aref, T, ignore, base, S = expected(s, x, opts)
         bad = mismatch(A, Aref, T, ignore)
         ctx.count("matrices_compared")
@@ -492,18 +519,25 @@ def run_instance(pym, s, opts, xkinds, rng, ctx, worst):
                 raise Violation("output/wrong-shape", got=bad[1], want=bad[2], **wit)
             wit.update(entry=[bad[0], bad[1]], got=bad[2], want=bad[3], tol=bad[4],
                        constrained=(opts["bcset"].tolist()[:30] if opts["bcset"] is not None else None))
+            mech = None
             if call > 0:
                 # does a fresh instance give the right answer for this x?  then it is a history effect
                 fresh = make_module(pym, s, pym.Signal("x", x), opts)
                 fresh.response()
                 if mismatch(np.asarray(todense(fresh.sig_out[0].state)), Aref, T, ignore) is None:
-                    raise Violation("history/response-depends-on-earlier-calls-of-the-same-instance", **wit)
-            raise Violation(classify(s, mod, A, x, opts, Aref, base, ignore), **wit)
-        den = np.where(T > 0, T, np.inf)
-        worst[0] = max(worst[0], float(np.max(np.where(ignore, 0.0, np.abs(A - Aref)) / den)) * RTOL)
+                    mech = "history/response-depends-on-earlier-calls-of-the-same-instance"
+            ctx.violate(mech or classify(s, mod, A, x, opts, Aref, base, ignore), **wit)
+        else:
+            den = np.where(T > 0, T, np.inf)
+            worst[0] = max(worst[0], float(np.max(np.where(ignore, 0.0, np.abs(A - Aref)) / den)) * RTOL)
+        nbad = 0
         if plain and not np.iscomplexobj(A) and not np.iscomplexobj(x) and s.kind != "general":
-            obs.update(physics(s, A, x, S, ctx) or {})
-    return obs
+            nbad, ob = physics(s, A, x, S, ctx)
+            for k_, v_ in ob.items():
+                obs[k_] = v_ if k_ not in obs else (min(obs[k_], v_) if k_.startswith("lambda_min") else max(obs[k_], v_))
+        if bad is not None or nbad:
+            return False
+    return True
 
 
 def make_opts(rng, s, bc_kind, diag_kind, const_kind, mtype):
@@ -540,19 +574,19 @@ def run_case(case, ctx):
         diags = DIAG_KINDS if bc_kind != "none" else ["default"]
         for diag_kind, mtype in itertools.product(diags, MTYPES):
             opts = make_opts(rng, s, bc_kind, diag_kind, const_kind, mtype)
-            obs.update(run_instance(pym, s, opts, pick_xkinds(rng, s, 2), rng, ctx, worst))
+            run_instance(pym, s, opts, pick_xkinds(rng, s, 2), rng, ctx, worst, obs)
         key = f"{s.kind}/opts/{nx}x{ny}x{nz}/{bc_kind}/{const_kind}"
     else:
         ninst = 3 if ctx.tier == "quick" else 5
         opts = make_opts(rng, s, "none", "default", "none", "default")
-        obs.update(run_instance(pym, s, opts, pick_xkinds(rng, s, 3, first="unif"), rng, ctx, worst))
+        run_instance(pym, s, opts, pick_xkinds(rng, s, 3, first="unif"), rng, ctx, worst, obs)
         for k in range(ninst):
             bc_kind = str(rng.choice(BC_KINDS))
             const_kind = str(rng.choice(CONST_KINDS))
             if k == 0:      # a second plain instance through an explicit matrix type: physics on csr/coo/... as well
                 bc_kind, const_kind = "none", "none"
             opts = make_opts(rng, s, bc_kind, str(rng.choice(DIAG_KINDS)), const_kind, str(rng.choice(MTYPES[1:] if k == 0 else MTYPES)))
-            obs.update(run_instance(pym, s, opts, pick_xkinds(rng, s, 3), rng, ctx, worst))
+            run_instance(pym, s, opts, pick_xkinds(rng, s, 3), rng, ctx, worst, obs)
         key = f"{s.kind}/{part}/{nx}x{ny}x{nz}/{case.get('corner')}"
     obs.update({"n": s.n, "nel": s.nel, "ndof": s.ndof, "max_err_over_scale": worst[0],
                 "material": s.mat if s.kind != "general" else getattr(s, "elkind", None)})
